@@ -656,4 +656,29 @@ def decodeWhole (file : Bytes) : Except Err (Hdr × Info) :=
       | .error e => .error e
       | .ok info => .ok (h, info)
 
+/-! ### variant with the repair of finding FB2-1
+
+  compute_var_shape as it stands returns early when there is no variable and leaves begin_var /
+  begin_rec as calloc made them (0).  The repaired code sets begin_var = begin_rec = xsz in that
+  case; nothing else changes (check_vlens / check_voffs return at once without variables).
+  `fixed = false` is the code as it stands (`decodeWholeV false = decodeWhole`). -/
+
+def fixInfo (fixed : Bool) (h : Hdr) (info : Info) : Info :=
+  if fixed ∧ h.vars.length = 0 then { info with beginVar := info.xsz, beginRec := info.xsz } else info
+
+def postPassV (fixed : Bool) (h : Hdr) : Except Err Info :=
+  match postPass h with
+  | .error e => .error e
+  | .ok info => .ok (fixInfo fixed h info)
+
+def decodeWholeV (fixed : Bool) (file : Bytes) : Except Err (Hdr × Info) :=
+  match decodeWhole file with
+  | .error e => .error e
+  | .ok (h, info) => .ok (h, fixInfo fixed h info)
+
+def decodeChunkedV (fixed : Bool) (ncpChunk : Nat) (file : Bytes) : Except Err (Hdr × Info) :=
+  match decodeChunked ncpChunk file with
+  | .error e => .error e
+  | .ok (h, info) => .ok (h, fixInfo fixed h info)
+
 end PnVerif.Header
